@@ -728,4 +728,175 @@ Proof.
   unfold peval, subst. rewrite Jsum_lift. apply Jsum_ext. intro m. apply peval_subst_mon.
 Qed.
 
+
+(* ------------------------------------------------------------------ *)
+(* 9. the rotation-invariant second-order operators: Laplacian, Euler operator y.grad, multiplication by |y|^2;
+      each commutes with an orthogonal substitution.  [kinop h beta] is
+        -h (Lap - 4 beta y.grad - 6 beta + 4 beta^2 |y|^2) = -h e^{beta y^2} Lap (. e^{-beta y^2}),
+      the polynomial part of the kinetic-energy operator applied to polynomial x Gaussian (h = 1/2). *)
+Definition lap (f : poly3) : poly3 := dv AX (dv AX f) ++ dv AY (dv AY f) ++ dv AZ (dv AZ f).
+Definition euler (f : poly3) : poly3 := mulv AX (dv AX f) ++ mulv AY (dv AY f) ++ mulv AZ (dv AZ f).
+Definition rsq (f : poly3) : poly3 := mulv AX (mulv AX f) ++ mulv AY (mulv AY f) ++ mulv AZ (mulv AZ f).
+Definition kinop (h beta : F) (f : poly3) : poly3 :=
+  pscale3 (- h) (lap f ++ pscale3 (- ((1 + 1 + 1 + 1) * beta)) (euler f)
+                 ++ pscale3 (- ((1 + 1 + 1 + 1 + 1 + 1) * beta)) f
+                 ++ pscale3 ((1 + 1 + 1 + 1) * beta * beta) (rsq f)).
+
+Lemma dv_dv_subst R k f J :
+  Jsum J (dv k (dv k (subst R f)))
+  = sum3 (fun i => sum3 (fun j => R i k * R j k * Jsum J (subst R (dv j (dv i f))))).
+Proof.
+  rewrite Jsum_dv, dv_subst. unfold sum3. rewrite <- !Jsum_dv, !dv_subst. unfold sum3. ring.
+Qed.
+
+Theorem lap_subst R f : orth_rows R -> peq (lap (subst R f)) (subst R (lap f)).
+Proof.
+  intros HO J. unfold lap. rewrite !subst_app, !Jsum_app, !dv_dv_subst. unfold sum3.
+  pose proof (HO AX AX) as H00. pose proof (HO AX AY) as H01. pose proof (HO AX AZ) as H02.
+  pose proof (HO AY AX) as H10. pose proof (HO AY AY) as H11. pose proof (HO AY AZ) as H12.
+  pose proof (HO AZ AX) as H20. pose proof (HO AZ AY) as H21. pose proof (HO AZ AZ) as H22.
+  unfold sum3, delta3 in *. cbn [axis_eqb] in *.
+  generalize (Jsum J (subst R (dv AX (dv AX f)))) (Jsum J (subst R (dv AY (dv AX f))))
+    (Jsum J (subst R (dv AZ (dv AX f)))) (Jsum J (subst R (dv AX (dv AY f))))
+    (Jsum J (subst R (dv AY (dv AY f)))) (Jsum J (subst R (dv AZ (dv AY f))))
+    (Jsum J (subst R (dv AX (dv AZ f)))) (Jsum J (subst R (dv AY (dv AZ f))))
+    (Jsum J (subst R (dv AZ (dv AZ f)))).
+  intros xx yx zx xy yy zy xz yz zz.
+  transitivity
+    ((R AX AX * R AX AX + R AX AY * R AX AY + R AX AZ * R AX AZ) * xx
+     + (R AX AX * R AY AX + R AX AY * R AY AY + R AX AZ * R AY AZ) * yx
+     + (R AX AX * R AZ AX + R AX AY * R AZ AY + R AX AZ * R AZ AZ) * zx
+     + (R AY AX * R AX AX + R AY AY * R AX AY + R AY AZ * R AX AZ) * xy
+     + (R AY AX * R AY AX + R AY AY * R AY AY + R AY AZ * R AY AZ) * yy
+     + (R AY AX * R AZ AX + R AY AY * R AZ AY + R AY AZ * R AZ AZ) * zy
+     + (R AZ AX * R AX AX + R AZ AY * R AX AY + R AZ AZ * R AX AZ) * xz
+     + (R AZ AX * R AY AX + R AZ AY * R AY AY + R AZ AZ * R AY AZ) * yz
+     + (R AZ AX * R AZ AX + R AZ AY * R AZ AY + R AZ AZ * R AZ AZ) * zz); [ring|].
+  rewrite H00, H01, H02, H10, H11, H12, H20, H21, H22. ring.
+Qed.
+
+Theorem euler_subst R f : peq (euler (subst R f)) (subst R (euler f)).
+Proof.
+  intro J. unfold euler. rewrite !subst_app, !Jsum_app.
+  rewrite !subst_mulv, !Jsum_mullin_exp.
+  rewrite !(Jsum_mulv _ J (dv _ (subst R f))), !dv_subst. unfold sum3.
+  rewrite <- !Jsum_mulv. ring.
+Qed.
+
+Lemma mullin_mullin_exp J l l' g :
+  Jsum J (mullin l (mullin l' g))
+  = sum3 (fun k => sum3 (fun m => l k * l' m * Jsum J (mulv k (mulv m g)))).
+Proof.
+  rewrite Jsum_mullin_exp, !Jsum_mulv, !Jsum_mullin_exp, <- !Jsum_mulv. unfold sum3. ring.
+Qed.
+
+Theorem rsq_subst R f : orth_rows (transpose R) -> peq (rsq (subst R f)) (subst R (rsq f)).
+Proof.
+  intros HO J. unfold rsq. rewrite !subst_app, !Jsum_app. symmetry.
+  assert (E : forall i, Jsum J (subst R (mulv i (mulv i f)))
+                        = Jsum J (mullin (R i) (mullin (R i) (subst R f)))).
+  { intro i. rewrite subst_mulv. apply (adjoint_cong _ _ (Jsum_mullin (R i))), subst_mulv. }
+  rewrite !E, !mullin_mullin_exp. unfold sum3.
+  pose proof (HO AX AX) as H00. pose proof (HO AX AY) as H01. pose proof (HO AX AZ) as H02.
+  pose proof (HO AY AX) as H10. pose proof (HO AY AY) as H11. pose proof (HO AY AZ) as H12.
+  pose proof (HO AZ AX) as H20. pose proof (HO AZ AY) as H21. pose proof (HO AZ AZ) as H22.
+  unfold sum3, delta3, transpose in *. cbn [axis_eqb] in *.
+  set (G := subst R f).
+  generalize (Jsum J (mulv AX (mulv AX G))) (Jsum J (mulv AX (mulv AY G))) (Jsum J (mulv AX (mulv AZ G)))
+    (Jsum J (mulv AY (mulv AX G))) (Jsum J (mulv AY (mulv AY G))) (Jsum J (mulv AY (mulv AZ G)))
+    (Jsum J (mulv AZ (mulv AX G))) (Jsum J (mulv AZ (mulv AY G))) (Jsum J (mulv AZ (mulv AZ G))).
+  intros xx xy xz yx yy yz zx zy zz.
+  transitivity
+    ((R AX AX * R AX AX + R AY AX * R AY AX + R AZ AX * R AZ AX) * xx
+     + (R AX AX * R AX AY + R AY AX * R AY AY + R AZ AX * R AZ AY) * xy
+     + (R AX AX * R AX AZ + R AY AX * R AY AZ + R AZ AX * R AZ AZ) * xz
+     + (R AX AY * R AX AX + R AY AY * R AY AX + R AZ AY * R AZ AX) * yx
+     + (R AX AY * R AX AY + R AY AY * R AY AY + R AZ AY * R AZ AY) * yy
+     + (R AX AY * R AX AZ + R AY AY * R AY AZ + R AZ AY * R AZ AZ) * yz
+     + (R AX AZ * R AX AX + R AY AZ * R AY AX + R AZ AZ * R AZ AX) * zx
+     + (R AX AZ * R AX AY + R AY AZ * R AY AY + R AZ AZ * R AZ AY) * zy
+     + (R AX AZ * R AX AZ + R AY AZ * R AY AZ + R AZ AZ * R AZ AZ) * zz); [ring|].
+  rewrite H00, H01, H02, H10, H11, H12, H20, H21, H22. ring.
+Qed.
+
+(* the kinetic operator commutes with every orthogonal substitution (R R^T = R^T R = 1) *)
+Theorem kinop_subst R h beta f : orth_rows R -> orth_rows (transpose R) ->
+  peq (kinop h beta (subst R f)) (subst R (kinop h beta f)).
+Proof.
+  intros HR HC J. unfold kinop.
+  rewrite subst_pscale3, !Jsum_pscale3, !subst_app, !Jsum_app, !subst_pscale3, !Jsum_pscale3.
+  rewrite (lap_subst R f HR), (euler_subst R f), (rsq_subst R f HC). reflexivity.
+Qed.
+
+Lemma adjoint_id : adjoint (fun f => f) (fun J => J).
+Proof. intros J f. reflexivity. Qed.
+Lemma adjoint_app2 op1 opT1 op2 opT2 : adjoint op1 opT1 -> adjoint op2 opT2 ->
+  adjoint (fun f => op1 f ++ op2 f) (fun J m => opT1 J m + opT2 J m).
+Proof. intros A1 A2 J f. now rewrite Jsum_app, A1, A2, Jsum_Jadd. Qed.
+Lemma adjoint_scale c op opT : adjoint op opT ->
+  adjoint (fun f => pscale3 c (op f)) (fun J m => c * opT J m).
+Proof. intros A J f. now rewrite Jsum_pscale3, A, Jsum_Jscale. Qed.
+Lemma adjoint_comp op1 opT1 op2 opT2 : adjoint op1 opT1 -> adjoint op2 opT2 ->
+  adjoint (fun f => op1 (op2 f)) (fun J => opT2 (opT1 J)).
+Proof. intros A1 A2 J f. now rewrite A1, A2. Qed.
+
+Lemma kinop_adjoint h beta : exists opT, adjoint (kinop h beta) opT.
+Proof.
+  eexists. unfold kinop, lap, euler, rsq.
+  apply adjoint_scale.
+  apply adjoint_app2; [|apply adjoint_app2; [|apply adjoint_app2]].
+  - apply adjoint_app2; [|apply adjoint_app2].
+    + apply (adjoint_comp _ _ _ _ (Jsum_dv AX) (Jsum_dv AX)).
+    + apply (adjoint_comp _ _ _ _ (Jsum_dv AY) (Jsum_dv AY)).
+    + apply (adjoint_comp _ _ _ _ (Jsum_dv AZ) (Jsum_dv AZ)).
+  - apply (adjoint_scale _ (fun f => mulv AX (dv AX f) ++ mulv AY (dv AY f) ++ mulv AZ (dv AZ f))).
+    apply adjoint_app2; [|apply adjoint_app2].
+    + apply (adjoint_comp _ _ _ _ (Jsum_mulv AX) (Jsum_dv AX)).
+    + apply (adjoint_comp _ _ _ _ (Jsum_mulv AY) (Jsum_dv AY)).
+    + apply (adjoint_comp _ _ _ _ (Jsum_mulv AZ) (Jsum_dv AZ)).
+  - apply (adjoint_scale _ (fun f => f)). apply adjoint_id.
+  - apply (adjoint_scale _ (fun f => mulv AX (mulv AX f) ++ mulv AY (mulv AY f) ++ mulv AZ (mulv AZ f))).
+    apply adjoint_app2; [|apply adjoint_app2].
+    + apply (adjoint_comp _ _ _ _ (Jsum_mulv AX) (Jsum_mulv AX)).
+    + apply (adjoint_comp _ _ _ _ (Jsum_mulv AY) (Jsum_mulv AY)).
+    + apply (adjoint_comp _ _ _ _ (Jsum_mulv AZ) (Jsum_mulv AZ)).
+Qed.
+Lemma kinop_cong h beta f g : peq f g -> peq (kinop h beta f) (kinop h beta g).
+Proof. destruct (kinop_adjoint h beta) as [opT A]. apply (adjoint_cong _ _ A). Qed.
+
+(* the action on index functionals: (kinT J)(b) = J applied to kinop (y^b) *)
+Definition kinT (h beta : F) (J : mon -> F) : mon -> F := fun b => Jsum J (kinop h beta (mono3 b)).
+Lemma Jsum_kinop h beta J f : Jsum J (kinop h beta f) = Jsum (kinT h beta J) f.
+Proof.
+  destruct (kinop_adjoint h beta) as [opT A]. rewrite A.
+  apply Jsum_ext. intro b. unfold kinT. rewrite A. unfold mono3. cbn [Jsum fst snd]. ring.
+Qed.
+
+Lemma subst_mono3 R m : peq (subst R (mono3 m)) (subst_mon R m).
+Proof. intro J. unfold subst, mono3, lift. cbn [flat_map fst snd]. rewrite Jsum_app, Jsum_pscale3.
+  cbn [Jsum]. ring. Qed.
+
+Lemma Jsum_swap (G : mon -> mon -> F) f g :
+  Jsum (fun x => Jsum (fun y => G x y) g) f = Jsum (fun y => Jsum (fun x => G x y) f) g.
+Proof.
+  induction f as [|mc f IH]; cbn [Jsum].
+  - now rewrite Jsum_J0.
+  - rewrite IH, <- Jsum_Jscale, <- Jsum_Jadd. reflexivity.
+Qed.
+
+(* a bilinear form B(a, b) on index pairs that is covariant stays covariant when [kinT] acts on the second index *)
+Theorem kinT_covariant (R : mat) h beta (B B' : mon -> mon -> F) :
+  orth_rows R -> orth_rows (transpose R) ->
+  (forall a b, Jsum (fun a' => Jsum (fun b' => B' a' b') (subst_mon R b)) (subst_mon R a) = B a b) ->
+  forall a b, Jsum (fun a' => Jsum (fun b' => kinT h beta (B' a') b') (subst_mon R b)) (subst_mon R a)
+              = kinT h beta (B a) b.
+Proof.
+  intros HR HC Hcov a b.
+  rewrite (Jsum_ext _ (fun a' => Jsum (fun m => Jsum (B' a') (subst_mon R m)) (kinop h beta (mono3 b)))).
+  2:{ intro a'. rewrite <- Jsum_kinop.
+      rewrite (kinop_cong h beta _ _ (peq_sym _ _ (subst_mono3 R b))).
+      rewrite (kinop_subst R h beta (mono3 b) HR HC). unfold subst. now rewrite Jsum_lift. }
+  rewrite Jsum_swap. unfold kinT at 1. apply Jsum_ext. intro m. apply Hcov.
+Qed.
+
 End Poly3.
